@@ -109,3 +109,64 @@ Proof.
   rewrite (msg_feeds_concat k (r :: rs)), (msg_feeds_concat k [concat (r :: rs)]).
   cbn [concat]. rewrite !app_nil_r. auto.
 Qed.
+
+(* ------------------------------------------------------------------------ *)
+(* A parser pointed at a new receive buffer (makeParser(msg=buffer) or
+   reinit(msg=buffer)) between messages. *)
+Lemma first_read_from k h s1 c r :
+  hs_p h = Live s1 c -> hs_started h = false -> c ++ r <> [] ->
+  let h1 := do_op k (do_op k h (OData r)) OParse in
+  hs_p h1 = fst (feed (msg_stage k) (Live s1 c) r) /\
+  hs_out h1 = hs_out h ++ snd (feed (msg_stage k) (Live s1 c) r) /\
+  hs_closed h1 = false /\ hs_fresh h1 = false.
+Proof.
+  intros Hp Hs Hne. cbn [do_op hs_p hs_closed hs_fresh hs_started hs_out].
+  rewrite Hp, Hs. cbn [negb andb].
+  assert (En : is_nil (c ++ r) = false) by (destruct (c ++ r); [congruence|reflexivity]).
+  rewrite En. cbn [negb]. rewrite Bool.orb_true_r.
+  unfold feed. destruct (run (msg_stage k) (S (length (c ++ r))) s1 (c ++ r)) as [p os].
+  cbn [fst snd hs_p hs_out hs_closed hs_fresh]. auto.
+Qed.
+
+(* The bytes of the next message(s) may already be in the new buffer at the
+   call, arrive afterwards in any non-empty reads, or partly both: the parser
+   ends in the same state with the same completed messages.  (c: what the
+   buffer holds at the call; r :: rs: what arrives afterwards.) *)
+Theorem rebind_fragmentation k mk h0 s0 b0 c r rs :
+  hs_p h0 = Live s0 b0 -> hs_started h0 = false -> c ++ r <> [] ->
+  let hA := fold_left (do_op k) (ORebind mk c :: feed_ops (r :: rs)) h0 in
+  let hB := fold_left (do_op k) [ORebind mk (c ++ concat (r :: rs)); OParse] h0 in
+  hs_p hA = hs_p hB /\ hs_out hA = hs_out hB.
+Proof.
+  intros Hp Hs Hne. cbn [fold_left feed_ops flat_map app]. fold (feed_ops rs).
+  set (s1 := if mk then start_state init_carry else s0).
+  set (hc := do_op k h0 (ORebind mk c)).
+  set (hw := do_op k h0 (ORebind mk (c ++ concat (r :: rs)))).
+  assert (Hpc : hs_p hc = Live s1 c) by (subst hc s1; cbn [do_op]; rewrite Hp; reflexivity).
+  assert (Hsc : hs_started hc = false) by (subst hc; cbn [do_op]; rewrite Hp; exact Hs).
+  assert (Hoc : hs_out hc = hs_out h0) by (subst hc; cbn [do_op]; rewrite Hp; reflexivity).
+  assert (Hpw : hs_p hw = Live s1 (c ++ concat (r :: rs))) by (subst hw s1; cbn [do_op]; rewrite Hp; reflexivity).
+  assert (Hsw : hs_started hw = false) by (subst hw; cbn [do_op]; rewrite Hp; exact Hs).
+  assert (How : hs_out hw = hs_out h0) by (subst hw; cbn [do_op]; rewrite Hp; reflexivity).
+  (* A: bytes arrive afterwards *)
+  destruct (first_read_from k hc s1 c r Hpc Hsc Hne) as [Hp1 [Ho1 [Hc1 Hf1]]].
+  set (h1 := do_op k (do_op k hc (OData r)) OParse) in *.
+  destruct (open_feeds k rs h1 Hc1 Hf1) as [HpA [HoA _]].
+  (* B: everything already in the buffer: one parse of c ++ concat = feed (Live s1 c) (r ++ concat rs) *)
+  assert (HB : hs_p (do_op k hw OParse) = fst (feed (msg_stage k) (Live s1 c) (r ++ concat rs)) /\
+               hs_out (do_op k hw OParse) = hs_out h0 ++ snd (feed (msg_stage k) (Live s1 c) (r ++ concat rs))).
+  { cbn [do_op]. rewrite Hpw, Hsw, How. cbn [negb andb concat].
+    assert (En : is_nil (c ++ r ++ concat rs) = false).
+    { rewrite app_assoc. destruct (c ++ r); [congruence|reflexivity]. }
+    rewrite En. cbn [negb]. rewrite Bool.orb_true_r.
+    unfold feed. destruct (run (msg_stage k) (S (length (c ++ r ++ concat rs))) s1 (c ++ r ++ concat rs)) as [p os].
+    cbn [fst snd hs_p hs_out]. auto. }
+  destruct HB as [HpB HoB].
+  pose proof (feeds_cons_concat (msg_stage k) (msg_shrinks k) (msg_stable_step k) (msg_stable_fail k)
+                r rs (Live s1 c)) as Hcc.
+  cbn [feeds] in Hcc.
+  destruct (feed (msg_stage k) (Live s1 c) r) as [p1 os1]. cbn [fst snd] in *.
+  rewrite Hp1 in HpA, HoA. rewrite Ho1, Hoc in HoA.
+  destruct (feeds (msg_stage k) p1 rs) as [p2 os2]. cbn [fst snd] in *.
+  rewrite HpA, HoA, HpB, HoB, <- Hcc. cbn [fst snd]. rewrite app_assoc. auto.
+Qed.
